@@ -11,7 +11,7 @@ from ..alg import Sym, is_zero, Unsupported, PathRaised
 from ..order import Interp
 
 ATM = "typhon/physics/atmosphere.py"
-EXPECT = {"C09.moebius": 24, "C09.rh": 3, "C09.guard": 4, "C09.mixed": 6, "C09.lapse": 2, "C09.consts": 4, "C09.pure": 12, "C09.zerodim": 1}
+EXPECT = {"C09.args": 10, "C09.moebius": 24, "C09.rh": 3, "C09.guard": 4, "C09.mixed": 6, "C09.lapse": 2, "C09.consts": 4, "C09.pure": 12, "C09.zerodim": 1}
 
 PAIRS = [("vmr2mixing_ratio", "mixing_ratio2vmr"), ("vmr2specific_humidity", "specific_humidity2vmr"),
          ("mixing_ratio2specific_humidity", "specific_humidity2mixing_ratio")]
@@ -354,3 +354,6 @@ def run(ctx):
     from ..purity import rule_pure
     names = sorted(set(a for p in PAIRS for a in p)) + ["relative_humidity2vmr", "vmr2relative_humidity", "e_eq_ice_mk", "e_eq_water_mk", "e_eq_mixed_mk", "moist_lapse_rate"]
     ctx.attempt(rule_pure, ctx, "C09.pure", [(ATM, n) for n in names])
+    # the caller's arguments (arrays, filter / fill dictionaries) are not modified: an in-place update makes the next call on the same objects wrong
+    from ..purity import rule_pure as _rule_args
+    ctx.attempt(_rule_args, ctx, "C09.args", [('typhon/physics/atmosphere.py', 'vmr2mixing_ratio'), ('typhon/physics/atmosphere.py', 'mixing_ratio2vmr'), ('typhon/physics/atmosphere.py', 'vmr2specific_humidity'), ('typhon/physics/atmosphere.py', 'specific_humidity2vmr'), ('typhon/physics/atmosphere.py', 'e_eq_mixed_mk'), ('typhon/physics/atmosphere.py', 'e_eq_ice_mk'), ('typhon/physics/atmosphere.py', 'e_eq_water_mk'), ('typhon/physics/atmosphere.py', 'relative_humidity2vmr'), ('typhon/physics/atmosphere.py', 'vmr2relative_humidity'), ('typhon/physics/atmosphere.py', 'moist_lapse_rate')], "the caller's arguments are not modified in place")
